@@ -191,27 +191,6 @@ Proof.
     rewrite rstrip_cons_nonblank by (rewrite R; discriminate). rewrite R. reflexivity.
 Qed.
 
-(* ---------------------------------------------------------------- GFF3 + ##FASTA *)
-Lemma write_w_gff b : write_w Gff b = Ok (CText (unlines (write_gff_lines b))).
-Proof. reflexivity. Qed.
-
-Theorem gff_seq_roundtrip b : forallb wfb_fasta b = true ->
-  exists t, write_w Gff b = Ok t /\ read_content Gff t = Ok (map (norm_fasta Gff) b)
-            /\ write_w Gff (map (norm_fasta Gff) b) = Ok t.
-Proof.
-  intros H. eexists. split; [apply write_w_gff|]. split.
-  - unfold read_content. rewrite text_lines_unlines.
-    + unfold write_gff_lines, read_gff_lines. cbn [gff_skip]. 
-      change (startswith GFF_FASTA (bs "##gff-version 3"%bs)) with false.
-      change (head_is HASH (bs "##gff-version 3"%bs)) with true. cbn [orb].
-      change (startswith GFF_FASTA GFF_FASTA) with true. cbv iota.
-      unfold read_fasta_lines. rewrite (iter_fasta_written b None H). cbn [flush app bind].
-      rewrite map_set_fmt_pre_norm. reflexivity.
-    + unfold write_gff_lines. cbn [forallb]. rewrite (fasta_lines_clean b nl (or_introl eq_refl) H). reflexivity.
-    + unfold write_gff_lines. cbn [forallb]. rewrite (fasta_lines_clean b cr (or_intror eq_refl) H). reflexivity.
-  - rewrite write_w_gff. unfold write_gff_lines. rewrite write_lines_norm. reflexivity.
-Qed.
-
 (* ---------------------------------------------------------------- SJSON (tree level) *)
 Lemma dec_enc_seq s : dec_seq (enc_seq s) = Ok (mk_bseq (upper (b_data s)) (b_id s) (b_nt s) None (b_fmt s)).
 Proof.
@@ -250,4 +229,36 @@ Proof.
   - f_equal. rewrite map_map. apply map_ext. intros s. reflexivity.
   - rewrite forallb_forall in *. intros s Hs. apply in_map_iff in Hs. destruct Hs as (s0 & E & Hs0). subst.
     unfold data_upper, norm_plain. cbn. apply H. exact Hs0.
+Qed.
+
+(* ---------------------------------------------------------------- header verbatim, in any position and with any body *)
+Lemma desc_shape d : d <> [] -> strip d = d ->
+  exists c r, d = c :: r /\ is_ws c = false /\ rstrip (c :: r) = c :: r.
+Proof.
+  intros Hd Hs. destruct d as [|c r]; [contradiction|].
+  assert (W : is_ws c = false) by (eapply strip_head_non_ws; exact Hs).
+  exists c, r. split; [reflexivity|]. split; [exact W|].
+  unfold strip in Hs. rewrite (lstrip_non_ws c r W) in Hs. exact Hs.
+Qed.
+
+(* a '>id description' line opens a record with that id and header, whatever record precedes it; the body contributes its
+   payload; and the header line written for the record is the line that was read *)
+Theorem fasta_header_verbatim_general i d body rest st : id_fasta_ok i = true -> d <> [] -> strip d = d ->
+  forallb is_body_line body = true ->
+  iter_fasta st ((GT :: i ++ SP :: d) :: body ++ rest)
+  = bind (iter_fasta (Some (Some i, i ++ SP :: d, payload body)) rest) (fun r => Ok (flush st ++ r))
+  /\ forall x, fasta_header_line (create_bioseq (Some i, i ++ SP :: d, x)) = GT :: i ++ SP :: d.
+Proof.
+  intros Hi Hd Hs Hb. destruct (id_fasta_ok_facts i Hi) as (Hne & Hg & Hchs & Hgt & Hid).
+  destruct (desc_shape d Hd Hs) as (c & r & Ed & W & R). subst d.
+  split.
+  - cbn [iter_fasta head_is]. rewrite byte_eqb_refl. cbn [lstrip_ch]. rewrite byte_eqb_refl.
+    assert (Hhd : head_is GT (i ++ SP :: c :: r) = false) by (rewrite head_is_app by exact Hne; exact Hgt).
+    rewrite (lstrip_ch_no_head GT _ Hhd).
+    rewrite (strip_id_suffix i (SP :: c :: r) Hne (graph_non_ws i Hg)) by (right; exists c, r; auto).
+    rewrite (id_from_header_prefix i _ Hne Hchs (or_intror (ex_intro _ _ eq_refl))). rewrite Hid.
+    rewrite (iter_body body _ _ _ rest Hb). reflexivity.
+  - intros x. unfold fasta_header_line, header_suffix, id_or_empty. cbn [b_id b_header create_bioseq set_header bioseq].
+    rewrite removeprefix_app. change (lstrip (SP :: c :: r)) with (lstrip (c :: r)). rewrite (lstrip_non_ws c r W).
+    rewrite rstrip_cons_nonblank by (rewrite R; discriminate). rewrite R. reflexivity.
 Qed.
